@@ -377,6 +377,11 @@ func genCase(r *vh.Rng) vh.Case {
 		lanes = "uuuuu" // thousands of new keys per case would only exercise the translate store
 	}
 	fl += " lanes=" + lanes
+	if r.Chance(1, 2) {
+		fl += " exist=1"
+	} else {
+		fl += " exist=0"
+	}
 	lines = append(lines, fl)
 
 	// universes
@@ -743,7 +748,9 @@ func (p *prop) execField(ws []string) string {
 		}
 		p.seq++
 		name := fmt.Sprintf("x%dl%d", p.seq, i)
-		if _, err := p.s.API.CreateIndex(ctx, name, pilosa.IndexOptions{Keys: keyed, TrackExistence: false}); err != nil {
+		// exist=1: the index tracks existence (API.Import/ImportValue then write the existence field
+		// first, from the same request slices). Not()/existence answers are still not compared.
+		if _, err := p.s.API.CreateIndex(ctx, name, pilosa.IndexOptions{Keys: keyed, TrackExistence: opt["exist"] == "1"}); err != nil {
 			return "err:create-index"
 		}
 		p.lanes = append(p.lanes, lane{keyed: keyed, index: name})
@@ -865,6 +872,46 @@ func (p *prop) pathAllowed(path, op string) bool {
 	return len(path) == 1 && strings.Contains("qQik", path)
 }
 
+func sameU(a, b []uint64) bool {
+	if len(a) != len(b) {
+		return false
+	}
+	for i := range a {
+		if a[i] != b[i] {
+			return false
+		}
+	}
+	return true
+}
+
+func sameI(a, b []int64) bool {
+	if len(a) != len(b) {
+		return false
+	}
+	for i := range a {
+		if a[i] != b[i] {
+			return false
+		}
+	}
+	return true
+}
+
+func sameS(a, b []string) bool {
+	if len(a) != len(b) {
+		return false
+	}
+	for i := range a {
+		if a[i] != b[i] {
+			return false
+		}
+	}
+	return true
+}
+
+// mutated is the answer of a path that rewrote the slices of the request it was handed: a client
+// (or the next path fed from the same request) would see different data than it sent.
+const mutated = "err:input-mutated"
+
 func (p *prop) writeLane(ln lane, path, op string, items []item) string {
 	ctx := context.Background()
 	api := p.s.API
@@ -940,8 +987,13 @@ func (p *prop) writeLane(ln lane, path, op string, items []item) string {
 			if !hasTS {
 				req.Timestamps = nil
 			}
+			r0, c0, t0 := append([]uint64(nil), req.RowIDs...), append([]uint64(nil), req.ColumnIDs...), append([]int64(nil), req.Timestamps...)
+			rs, cs, ts := req.RowIDs, req.ColumnIDs, req.Timestamps
 			if err := api.Import(ctx, req, pilosa.OptImportOptionsClear(clear)); err != nil {
 				return errClass(err)
+			}
+			if !sameU(rs, r0) || !sameU(cs, c0) || !sameI(ts, t0) {
+				return mutated
 			}
 		}
 		return ""
@@ -966,8 +1018,13 @@ func (p *prop) writeLane(ln lane, path, op string, items []item) string {
 		if !hasTS {
 			req.Timestamps = nil
 		}
+		rk0, ck0, r0 := append([]string(nil), req.RowKeys...), append([]string(nil), req.ColumnKeys...), append([]uint64(nil), req.RowIDs...)
+		rks, cks, rs := req.RowKeys, req.ColumnKeys, req.RowIDs
 		if err := api.Import(ctx, req, pilosa.OptImportOptionsClear(clear)); err != nil {
 			return errClass(err)
+		}
+		if !sameS(rks, rk0) || !sameS(cks, ck0) || (p.ftype == "bool" && !sameU(rs, r0)) {
+			return mutated
 		}
 		return ""
 	case "p", "o":
@@ -1033,8 +1090,17 @@ func (p *prop) writeLane(ln lane, path, op string, items []item) string {
 		}
 		sort.Slice(shards, func(i, j int) bool { return shards[i] < shards[j] })
 		for _, sh := range shards {
+			before := map[string][]byte{}
+			for v, b := range reqs[sh].Views {
+				before[v] = append([]byte(nil), b...)
+			}
 			if err := api.ImportRoaring(ctx, ln.index, "f", sh, false, reqs[sh]); err != nil {
 				return errClass(err)
+			}
+			for v, b := range reqs[sh].Views {
+				if !bytes.Equal(b, before[v]) {
+					return mutated
+				}
 			}
 		}
 		return ""
@@ -1054,8 +1120,13 @@ func (p *prop) writeLane(ln lane, path, op string, items []item) string {
 				req.ColumnIDs = append(req.ColumnIDs, it.col)
 				req.Values = append(req.Values, it.val)
 			}
+			c0, v0 := append([]uint64(nil), req.ColumnIDs...), append([]int64(nil), req.Values...)
+			cs, vs := req.ColumnIDs, req.Values
 			if err := api.ImportValue(ctx, req, pilosa.OptImportOptionsClear(clear)); err != nil {
 				return errClass(err)
+			}
+			if !sameU(cs, c0) || !sameI(vs, v0) {
+				return mutated
 			}
 		}
 		return ""
@@ -1065,8 +1136,13 @@ func (p *prop) writeLane(ln lane, path, op string, items []item) string {
 			req.ColumnKeys = append(req.ColumnKeys, fmt.Sprintf("c%d", it.col))
 			req.Values = append(req.Values, it.val)
 		}
+		ck0, v0 := append([]string(nil), req.ColumnKeys...), append([]int64(nil), req.Values...)
+		cks, vs := req.ColumnKeys, req.Values
 		if err := api.ImportValue(ctx, req, pilosa.OptImportOptionsClear(clear)); err != nil {
 			return errClass(err)
+		}
+		if !sameS(cks, ck0) || !sameI(vs, v0) {
+			return mutated
 		}
 		return ""
 	}
